@@ -95,18 +95,23 @@ package jtypes
 //@ func (*OptionalBool).Set
 //@   props C20 C09
 //@   requires opt != nil && kind(v) == 1
+//@   ensures [C20:supplied-optional-argument-is-set-to-the-converted-value] opt.isSet && opt.Bool == bval(v)
 //@ func (*OptionalInt).Set
 //@   props C20 C09
 //@   requires opt != nil && 2 <= kind(v) && kind(v) <= 6
+//@   ensures [C20:supplied-optional-argument-is-set-to-the-converted-value] opt.isSet
 //@ func (*OptionalFloat64).Set
 //@   props C20 C09
 //@   requires opt != nil && (kind(v) == 13 || kind(v) == 14)
+//@   ensures [C20:supplied-optional-argument-is-set-to-the-converted-value] opt.isSet && same(opt.Float64, fval(v))
 //@ func (*OptionalString).Set
 //@   props C20 C09
 //@   requires opt != nil
+//@   ensures [C20:supplied-optional-argument-is-set-to-the-converted-value] opt.isSet && (kind(v) == 24 ==> same(opt.String, sval(v)))
 //@ func (*OptionalInterface).Set
 //@   props C20 C09
 //@   requires opt != nil && valid(v) && canif(v)
+//@   ensures [C20:supplied-optional-argument-is-set-to-the-converted-value] opt.isSet && opt.Interface == ifaceof(v)
 //@ func (*OptionalCallable).Set
 //@   props C20 C09
 //@   requires opt != nil && valid(v) && canif(v) && (kind(v) == 20 ? rvtype(v) >= 0 : rtimpl(rvtype(v), "Callable"))
